@@ -169,6 +169,14 @@ func runC06(c *runCtx) {
 		inputs = append(inputs, s)
 	}
 	nGenerated := len(inputs) // the catalogue and the repository corpus go through every configuration in both tiers
+	// deep and wide statements (operator chains, towers of derived tables / sub-queries / calls / CASEs, wide lists, long
+	// set-operation and join chains): a serialiser must write all of a tree, however deep
+	for _, size := range []int{40, 130} {
+		for fam := 0; fam < c15DeepFamilies; fam++ {
+			s, _ := cg.deep(fam, size)
+			inputs = append(inputs, s)
+		}
+	}
 	inputs = append(inputs, builtinCorpus...)
 	inputs = append(inputs, repoCorpus()...)
 	// the node types the CLI formatter knows (regenerated from its source)
@@ -495,7 +503,7 @@ func rejectCauseOut(input, output string, perr error) string {
 		named := m != nil && strings.EqualFold(word, m[1])
 		bare := false
 		if output != "" && reservedWordSet[strings.ToUpper(word)] && !strings.Contains(output, input[loc[0]:loc[1]]) {
-			bare = regexp.MustCompile(`(?i)(^|[^A-Za-z0-9_"`+"`"+`])`+regexp.QuoteMeta(word)+`($|[^A-Za-z0-9_"`+"`"+`])`).MatchString(output)
+			bare = regexp.MustCompile(`(?i)(^|[^A-Za-z0-9_"` + "`" + `])` + regexp.QuoteMeta(word) + `($|[^A-Za-z0-9_"` + "`" + `])`).MatchString(output)
 		}
 		if !named && !bare {
 			continue
